@@ -1037,6 +1037,25 @@ def fam_c07():
     add("nilco-fail-undefined", [P(Nilco(BAD, PV(2, I(2)))), Ret(I(0))])
     add("nilco-chain", [P(Nilco(Nilco(PV(1, NIL), PV(2, NIL)), PV(3, I(3)))), Ret(I(0))])
     add("and-or-mix", [P(Bin("||", Bin("&&", PV(1, B(True)), PV(2, B(False))), Bin("&&", PV(3, B(True)), PV(4, B(True))))), Ret(I(0))])
+    # chains of binary operators in which an OPERATION fails on its values (scalar + list, x % 0) before the end of the chain: the operands to its right never run
+    cvals = {"i": I(1), "l": L(I(2)), "s": S("s"), "z": I(0)}
+    n9 = 0
+    for ops in (("+", "+"), ("+", "-"), ("-", "+"), ("+", "*"), ("%", "+"), ("+", "%"), ("+", "=="), ("+", "+", "+")):
+        import itertools as _it
+        for ks in _it.product("ilsz", repeat=len(ops) + 1):
+            if "l" not in ks and "%" not in ops:
+                continue
+            e = PV(1, cvals[ks[0]])
+            for q, op in enumerate(ops):
+                e = Bin(op, e, PV(q + 2, cvals[ks[q + 1]]))
+            nm = "chainfail-%s-%s" % ("".join({"+": "a", "-": "s", "*": "m", "%": "r", "==": "e"}[o] for o in ops), "".join(ks))
+            n9 += 1
+            if len(ops) == 3 and n9 % 5:
+                continue
+            add(nm, [Try([P(e), P(50)], "e", [P(60)]), P(61), Ret(I(0))])
+            if n9 % 3 == 0:
+                add(nm + "-arg", [FnStmt("f3", ["x", "y"], [Ret(I(0))]), Try([E(Call("f3", e, PV(9, I(9)))), P(50)], "e", [P(60)]), Ret(I(0))])
+                add(nm + "-top", [Let("r", e), P(50)])
     return out
 
 
